@@ -23,6 +23,35 @@
     MAGNITUDES: grids 33, 65, 2x130, 130x2 (picture 261 and extended picture 524 pixels wide: pixel
     coordinates cross 127/128 and 255/256), solutions of 301 cells, isolated cells at the largest
     coordinates, a dataset of 260 items (thorough: 1030) read and batched at indices 127..129, 255, 256.
+    AUDIT 2 (input / history classes of the missed seeded defects):
+    C falsy values: every option False; options OMITTED (call form "dflt": only what differs from the documented defaults
+      is passed, nothing at all for (True, True, False)); added_params = {} / partial / None; config seed 0; config
+      n_mazes 0; the empty selection as [] / () / empty ndarray; index 0.
+    D shapes: hand-built 2x5, 5x2, 3x7, 7x3, 1x6, 6x1, 1x1 (no connection / corridor along the last row or column /
+      every connection; one-cell solutions on isolated and connected cells, two-cell solutions both ways), random oblong
+      mazes of every generator in both orientations, exhaustive 1x1 (thorough: 1x4, 4x1), datasets of oblong mazes;
+      Raster.tla variant "ext_square" (width from the height) is rejected only thanks to the oblong shapes.
+    E aliasing: every call is bracketed by a deep snapshot of the caller's objects (maze arrays + nested generation_meta,
+      base dataset config, added_params dict, RasterizedMazeDatasetConfig, index list / ndarray, helper image):
+      a change is M:argument_modified (the statement is about the returned images), but the DAMAGE is Layer P, because
+      the records that follow on the same object are judged against the object as first projected.  added_params, the
+      config object and the index buffer are overwritten by the "caller" right after the call, before anything is read.
+      Helper results sharing memory with the image: M:result_aliases_argument (read-only images are among the inputs:
+      a helper that writes into its argument raises there, which is helper_raises, Layer P).
+    F stale / redundant state: config n_mazes (0, too many, too few) and grid_n (1, shorter side, 64) disagreeing with
+      the mazes; the same maze object and an equal copy repeated in one dataset; RasterizedMazeDataset built directly
+      through its constructor; a base that is itself rasterized with the OPPOSITE options; bases that went through
+      filter_by.path_length (once, twice in a row) and / or collect_generation_meta (metadata present / collected).
+    G representations: the maze built in 10 ways (_REPS); options as keywords / positionally / numpy.bool_ (the last is
+      Layer M: M:option_representation); dataset[i] with numpy.int64 indices; get_batch with list, list of numpy ints
+      (Layer P), tuple / int64 / int32 ndarray (a refusal is M:batch_index_representation, a returned batch must be
+      right), range / generator (Layer M throughout); helper images as uint8 / int64 / int32 / Fortran-ordered /
+      non-contiguous view surrounded by open pixels / read-only.
+    H shortest cases x options: the hand-built mazes of one shape as ONE dataset under all 8 option combinations along
+      the routes base / ctor / rebase / partial (quick: routes rotate over 4 shapes so each meets all 8; thorough: full
+      product over 10 shapes); Raster.tla variant "ric_open_only" needs a one-cell solution on an isolated cell.
+    Not generated: unsigned (uint8) solution arrays - LatticeMaze.as_pixels itself refuses them (coordinate differences
+      wrap around, "not adjacent" AssertionError): C10 / C09's business, outside "solved maze" as the library builds it.
 
 Interpretation decisions (kept no stronger than the statement):
  * "open" in "open pixels with no open 4-neighbour" = not a wall (docstring of _remove_isolated_cells:
@@ -34,7 +63,9 @@ Interpretation decisions (kept no stronger than the statement):
    annotated layout [in/tgt, item, ...] is Layer M (M:batch_layout), index order is Layer P.
    get_batch([]) may be refused; get_batch(None) is the documented "all items in order".
  * the options a dataset applies are the ones ASKED for (added_params / the augmented config;
-   added_params=None means the documented defaults remove_isolated_cells = extend_pixels = True).
+   added_params=None means the documented defaults remove_isolated_cells = extend_pixels = True; a key missing
+   from added_params / an omitted keyword means the default documented in RasterizedMazeDatasetConfig and in the
+   signature of process_maze_rasterized_input_target: True, True, False).
  * dataset generation itself (from_config) is C03's business: a configuration whose plain
    MazeDataset.from_config raises is skipped; once the plain dataset exists, the rasterized
    construction of the same configuration must succeed.
